@@ -355,6 +355,11 @@ mtoken!(M16_8, #[repr(C, align(8))] { pad: [u8; 12] = [3; 12] });
 mtoken!(M16_16, #[repr(C, align(16))] { pad: [u8; 12] = [4; 12] });
 mtoken!(M4_2, #[repr(C, align(2))] {});
 mtoken!(M8_1, #[repr(C)] { pad: [u8; 4] = [5; 4] });
+// sizes that differ from a smaller type's by a multiple of 256, same alignment
+mtoken!(M260_4, #[repr(C, align(4))] { pad: [u8; 256] = [6; 256] });
+mtoken!(M264_8, #[repr(C, align(8))] { pad: [u8; 260] = [7; 260] });
+mtoken!(M520_8, #[repr(C, align(8))] { pad: [u8; 516] = [8; 516] });
+mtoken!(M65544_8, #[repr(C, align(8))] { pad: [u8; 65540] = [9; 65540] });
 
 #[cfg(test)]
 mod tests {
@@ -369,6 +374,10 @@ mod tests {
         assert_eq!((size_of::<M16_16>(), align_of::<M16_16>()), (16, 16));
         assert_eq!((size_of::<M4_2>(), align_of::<M4_2>()), (4, 2));
         assert_eq!((size_of::<M8_1>(), align_of::<M8_1>()), (8, 1));
+        assert_eq!((size_of::<M260_4>(), align_of::<M260_4>()), (260, 4));
+        assert_eq!((size_of::<M264_8>(), align_of::<M264_8>()), (264, 8));
+        assert_eq!((size_of::<M520_8>(), align_of::<M520_8>()), (520, 8));
+        assert_eq!((size_of::<M65544_8>(), align_of::<M65544_8>()), (65544, 8));
         assert_eq!((size_of::<MZ1>(), align_of::<MZ1>()), (0, 1));
         assert_eq!((size_of::<MZ8>(), align_of::<MZ8>()), (0, 8));
         assert_eq!((size_of::<TokA>(), align_of::<TokA>()), (size_of::<TokB>(), align_of::<TokB>()));
